@@ -33,18 +33,22 @@ def splits_reader(s):
     return any(k in s for k in READER_SPLIT_TOKENS)
 
 
-def data_splits_reader(data):
-    """the known-finding mechanism, tier by tier: a tier name with any of the tokens; a label with `item [`, a quoted tier class,
-    `ooTextFile short` - or with the entry marker of ITS OWN tier type (`intervals [` in an interval tier, `points [` in a point
-    tier).  The marker of the other tier type inside a label is harmless for the readers and is judged like any other text."""
+def data_splits_reader(data, layout=None):
+    """the known-finding mechanism, tier by tier and layout by layout (layout: "long" | "short" | None = either): a tier name with
+    any of the tokens; a label with `item [` (both layouts: it decides which parser is used) - in the long layout also with the
+    entry marker of ITS OWN tier type (`intervals [` in an interval tier, `points [` in a point tier) or `ooTextFile short`, in the
+    short layout also with a quoted tier class.  Everything else - the marker of the other tier type, the own marker in a short
+    file, a quoted class in a long file - is harmless for the readers and is judged like any other text."""
+    both = ("item [", "item[")
+    long_only = ("ooTextFile short",)
+    short_only = ('"IntervalTier"', '"TextTier"')
     for t in data["tiers"]:
         if splits_reader(t["name"]):
             return True
         own = ("intervals [", "intervals[") if t["t"] == "I" else ("points [", "points[")
-        other = ("points [", "points[") if t["t"] == "I" else ("intervals [", "intervals[")
+        toks = both + ((long_only + own) if layout in (None, "long") else ()) + (short_only if layout in (None, "short") else ())
         for e in t["entries"]:
-            lab = e[-1]
-            if any(k in lab for k in READER_SPLIT_TOKENS if k not in other) or any(k in lab for k in own):
+            if any(k in e[-1] for k in toks):
                 return True
     return False
 
